@@ -323,6 +323,43 @@ int main (int argc, char **argv)
     });
   }
 
+  // positional post-shrink: zero elements / cut the tail (keeps the meaning of the other positions)
+  if (g_failed && !keep_going && strcmp (mode, "rc") == 0) {
+    std::vector<uint32_t> best = g_fail_stream;
+    std::string want = g_fail_result.sig;
+    auto fails = [&] (const std::vector<uint32_t> &st) {
+      run_case (st); S.shrink_evals++;
+      return R->verdict == V_FAIL && want == R->sig;
+    };
+    double tps = now_s ();
+    bool improved = true;
+    int rounds = 0;
+    while (improved && rounds++ < 4 && now_s () - tps < 60) {
+      improved = false;
+      // cut the tail
+      size_t lo = 0, hi = best.size ();
+      while (lo < hi) {
+        size_t mid = (lo + hi) / 2;
+        std::vector<uint32_t> t (best.begin (), best.begin () + mid);
+        if (fails (t)) { hi = mid; g_fail_result = *R; } else lo = mid + 1;
+      }
+      if (hi < best.size ()) {
+        std::vector<uint32_t> t (best.begin (), best.begin () + hi);
+        if (fails (t)) { best = t; g_fail_result = *R; improved = true; }
+      }
+      for (size_t i = 0; i < best.size () && now_s () - tps < 60; i++) {
+        if (best[i] == 0) continue;
+        std::vector<uint32_t> t = best;
+        t[i] = 0;
+        if (fails (t)) { best = t; g_fail_result = *R; improved = true; continue; }
+        if (best[i] > 16) { t[i] = best[i] % 16; if (fails (t)) { best = t; g_fail_result = *R; improved = true; } }
+      }
+    }
+    // make sure g_fail_result describes `best`
+    run_case (best);
+    if (R->verdict == V_FAIL) { g_fail_stream = best; g_fail_result = *R; }
+  }
+
   double wall = now_s () - t0;
   if (g_failed && replay_out) write_replay (replay_out, mode, g_fail_stream, g_fail_result);
   if (out) write_stats (out, mode, wall, seed);
